@@ -50,6 +50,14 @@ func RunScheduled(w *world.World, clients []func(p *world.Proc) string, events [
 // returned an error because of the injected fault), "t<ns>", "e".
 func RunScheduledWrap(w *world.World, clients []func(p *world.Proc) string, events []string,
 	wrap func(sc *sched.Sched, id int, r world.Repos) world.Repos) SchedResult {
+	return RunScheduledLazy(w, clients, nil, events, wrap)
+}
+
+// RunScheduledLazy: lazy[i] = true delays the start of client i until the first event that names it
+// (so that a history of use cases executed one after the other reads the clock when each one starts).
+// Additional event:  r<i>  start client i if necessary and run it to completion, call by call.
+func RunScheduledLazy(w *world.World, clients []func(p *world.Proc) string, lazy []bool, events []string,
+	wrap func(sc *sched.Sched, id int, r world.Repos) world.Repos) SchedResult {
 	sc := sched.New()
 	procs := make([]*world.Proc, len(clients))
 	results := make([]string, len(clients))
@@ -61,15 +69,28 @@ func RunScheduledWrap(w *world.World, clients []func(p *world.Proc) string, even
 		}
 		procs[i] = w.NewProcOpts(po)
 	}
-	for i := range clients {
-		i := i
+	started := make([]bool, len(clients))
+	start := func(i int) {
+		if i < 0 || i >= len(clients) || started[i] {
+			return
+		}
+		started[i] = true
 		sc.Go(i, func() { results[i] = clients[i](procs[i]) })
+		sc.Settle()
+	}
+	for i := range clients {
+		if lazy == nil || !lazy[i] {
+			started[i] = true
+			i := i
+			sc.Go(i, func() { results[i] = clients[i](procs[i]) })
+		}
 	}
 	sc.Settle()
 	var eff []string
 
 	// callStep runs client i to the end of its current/next repository call; returns false if not live.
 	callStep := func(i int) bool {
+		start(i)
 		if !sc.Live(i) {
 			return false
 		}
@@ -93,6 +114,7 @@ func RunScheduledWrap(w *world.World, clients []func(p *world.Proc) string, even
 		return false
 	}
 	inCall := func(i int, k int, act sched.Action) {
+		start(i)
 		if !sc.Live(i) {
 			return
 		}
@@ -149,6 +171,17 @@ func RunScheduledWrap(w *world.World, clients []func(p *world.Proc) string, even
 			if err == nil && callStep(i) {
 				eff = append(eff, fmt.Sprintf("c%d", i))
 			}
+		case ev[0] == 'r' && len(ev) > 1:
+			i, err := strconv.Atoi(ev[1:])
+			if err != nil {
+				continue
+			}
+			for callStep(i) {
+				eff = append(eff, fmt.Sprintf("c%d", i))
+				if sc.Hung {
+					break
+				}
+			}
 		case ev[0] == 'x' || ev[0] == 'y':
 			body, ks, ok := strings.Cut(ev[2:], ":")
 			i, err1 := strconv.Atoi(body)
@@ -196,6 +229,9 @@ func RunScheduledWrap(w *world.World, clients []func(p *world.Proc) string, even
 		if sc.Hung {
 			break
 		}
+	}
+	for i := range clients {
+		start(i)
 	}
 	for !sc.Hung {
 		progressed := false
